@@ -19,6 +19,7 @@ from bfsa.length import lin, lin_eq, len_key
 from bfsa.load import AnalysisError, NotConst
 from bfsa.symexec import Exec
 from bfsa.terms import C, NONE, Term, cval, is_const, mk, show, subterms
+from rules import stackrt
 
 LEVEL = "other"
 VERIF = os.path.dirname(os.path.dirname(os.path.abspath(__file__)))
@@ -323,6 +324,130 @@ def point_encoding_rules(prog, chk, pid):
     chk.require(okh2, P("hybrid-decode"), fi.qualname, "validate_encoding and parity(y) != prefix -> raise", "%s:%d" % (fi.file, fi.lineno), "inconsistent hybrid prefixes are rejected when validation is on", "hybrid decoder does not check prefix against the parity of y")
 
 
+def der_codec_scenarios(prog, chk, pid, tier):
+    """DER primitives, encoder against decoder and against the definition: for enumerated content lengths (both sides of the
+    short/long length-form boundaries) with symbolic content, `remove_X(encode_X(content) + tail)` returns exactly (content, tail)
+    and the encoded bytes are tag | definite length | content as X.690 8.1.3 / 10.1 prescribe (shortest length form);
+    integers, OIDs and the length field itself are value encodings and are checked on enumerated constants"""
+    from bfsa.exprs import sbytes
+    from rules import stackrt as R
+
+    P = lambda s_: "%s.%s" % (pid, s_)
+    DER = E + "der"
+    stk = R.Stack(prog)
+    orig_pol = R.pol
+
+    def run(src, args):
+        import rules.stackrt as RR
+
+        saved = RR.INLINE
+        RR.INLINE = tuple(saved) + (DER, E + "_compat", E + "util")
+        try:
+            return stk.run(DER, src, args)
+        finally:
+            RR.INLINE = saved
+
+    def der_len(n):
+        if n < 0x80:
+            return [C(n)]
+        b_ = n.to_bytes((n.bit_length() + 7) // 8, "big")
+        return [C(0x80 | len(b_))] + [C(x) for x in b_]
+
+    lens = [0, 1, 2, 0x7F, 0x80, 0xFF, 0x100, 300] if tier != "thorough" else [0, 1, 2, 0x7E, 0x7F, 0x80, 0x81, 0xFF, 0x100, 0x101, 1000, 0xFFFF, 0x10000]
+    tail = R.syms("tl", 3)
+    # ---- the length field itself
+    fl = prog.func(DER + ".encode_length")
+    bad = None
+    for n in sorted(set(lens + [0xFFFF, 0x10000, 0xFFFFFF])):
+        ex, res = run("def drv():\n    e = encode_length(%d)\n    return (e, read_length(e + b'xyz'))\n" % n, {})
+        if res.dead or res.ret is None:
+            bad = bad or (n, "raises")
+            continue
+        e_, rl = unsnap(res.ret).args[0] if unsnap(res.ret).op == "tuple" else (None, None)
+        if e_ is None:
+            parts = cval(res.ret)
+            got, back = [C(x) for x in parts[0]], parts[1]
+        else:
+            got = R.flat(ex, res, e_)
+            back = tuple(cval(x) for x in ex.unpack_to(rl, 2, res.state, None)) if not is_const(rl) else cval(rl)
+        want = der_len(n)
+        if got is None or [cval(x) for x in got] != [cval(x) for x in want] or tuple(back) != (n, len(want)):
+            bad = bad or (n, "encodes to %s, read back %s; X.690 gives %s" % ([cval(x) for x in got] if got else None, back, [cval(x) for x in want]))
+    chk.require(bad is None, P("der-length-field"), fl.qualname, "%d lengths across the 0x7F/0x80 and byte-count boundaries" % (len(lens) + 3), "%s:%d" % (fl.file, fl.lineno),
+                "lengths below 128 are one byte, longer ones 0x80|k followed by k big-endian bytes without leading zero; read_length returns (length, bytes consumed)", "length %s: %s" % bad if bad else "")
+    # ---- string-like primitives: tag | length | content, and the decoder inverts it
+    prims = [
+        ("octet_string", "encode_octet_string(c)", "remove_octet_string(e + t)", 0x04, 0),
+        ("sequence", "encode_sequence(c)", "remove_sequence(e + t)", 0x30, 0),
+        ("constructed", "encode_constructed(1, c)", "remove_constructed(e + t)", 0xA1, 0),
+        ("bitstring", "encode_bitstring(c, 0)", "remove_bitstring(e + t, 0)", 0x03, 1),
+    ]
+    for name, enc, dec, tag, extra in prims:
+        fe = prog.func(DER + ".encode_" + name)
+        bad = None
+        for n in lens:
+            c = R.syms("c", n)
+            ex, res = run("def drv(c, t):\n    e = %s\n    return (e, %s)\n" % (enc, dec), {"c": sbytes(c), "t": sbytes(tail)})
+            if res.dead or res.ret is None or unsnap(res.ret).op != "tuple":
+                bad = bad or (n, "raises (%s)" % (ex._dead[1] if ex._dead else "?"))
+                continue
+            e_, d_ = unsnap(res.ret).args[0]
+            got = R.flat(ex, res, e_)
+            want = [C(tag)] + der_len(n + extra) + ([C(0)] if extra else []) + c
+            if got is None or len(got) != len(want) or any((a is not b_) and not (is_const(a) and is_const(b_) and cval(a) == cval(b_)) for a, b_ in zip(got, want)):
+                bad = bad or (n, "encoding is not tag %02X | length | content" % tag)
+                continue
+            parts = ex.unpack_to(d_, 3 if name == "constructed" else 2, res.state, None)
+            body, rest = (parts[1], parts[2]) if name == "constructed" else (parts[0], parts[1])
+            gb, gr = R.flat(ex, res, body), R.flat(ex, res, rest)
+            okb = gb is not None and len(gb) == n and all(a is b_ for a, b_ in zip(gb, c))
+            okr = gr is not None and len(gr) == 3 and all(a is b_ for a, b_ in zip(gr, tail))
+            oktag = name != "constructed" or (is_const(parts[0]) and cval(parts[0]) == 1)
+            if not (okb and okr and oktag):
+                bad = bad or (n, "decoder returns content ok=%s, rest ok=%s, tag ok=%s" % (okb, okr, oktag))
+        chk.require(bad is None, P("der-codec-" + name), fe.qualname, "%d content lengths, symbolic content and trailing bytes" % len(lens), "%s:%d" % (fe.file, fe.lineno),
+                    "the encoding is tag | shortest definite length | content and the matching decoder returns exactly (content, trailing bytes)", "content length %s: %s" % bad if bad else "")
+    # ---- integers: minimal two's complement, non-negative; round trip through remove_integer
+    fi_ = prog.func(DER + ".encode_integer")
+    bad = None
+    vals = [0, 1, 0x7F, 0x80, 0xFF, 0x100, 0x7FFF, 0x8000, 0xFFFFFF, (1 << 255) - 1, 1 << 255, (1 << 256) - 1, (1 << 521) - 1]
+    for v in vals:
+        ex, res = run("def drv(t):\n    e = encode_integer(%d)\n    return (e, remove_integer(e + t))\n" % v, {"t": sbytes(tail)})
+        if res.dead or res.ret is None:
+            bad = bad or (v, "raises")
+            continue
+        e_, d_ = unsnap(res.ret).args[0]
+        got = R.flat(ex, res, e_)
+        mag = v.to_bytes(max(1, (v.bit_length() + 7) // 8), "big")
+        if mag[0] & 0x80:
+            mag = b"\x00" + mag
+        want = [C(2)] + der_len(len(mag)) + [C(x) for x in mag]
+        parts = ex.unpack_to(d_, 2, res.state, None)
+        gr = R.flat(ex, res, parts[1])
+        if got is None or [cval(x) for x in got] != [cval(x) for x in want] or not (is_const(parts[0]) and cval(parts[0]) == v) or gr is None or any(a is not b_ for a, b_ in zip(gr, tail)):
+            bad = bad or (hex(v), "encoding %s, decoded %s" % ([cval(x) for x in got][:8] if got else None, show(parts[0], 3)[:40]))
+    chk.require(bad is None, P("der-codec-integer"), fi_.qualname, "%d values across the sign-bit and byte boundaries" % len(vals), "%s:%d" % (fi_.file, fi_.lineno),
+                "INTEGER is 02 | length | minimal big-endian magnitude with a leading 00 when the top bit is set; remove_integer returns (value, trailing bytes)", "value %s: %s" % bad if bad else "")
+    # ---- OIDs used by the key formats
+    fo = prog.func(DER + ".encode_oid")
+    bad = None
+    oids = {(1, 2, 840, 10045, 2, 1): "06072a8648ce3d0201", (1, 2, 840, 10045, 3, 1, 7): "06082a8648ce3d030107", (1, 3, 132, 0, 35): "06052b81040023", (1, 3, 101, 112): "06032b6570", (2, 999, 3): "0603883703"}
+    for arcs, hx in oids.items():
+        ex, res = run("def drv(t):\n    e = encode_oid(%s)\n    return (e, remove_object(e + t))\n" % ", ".join(map(str, arcs)), {"t": sbytes(tail)})
+        if res.dead or res.ret is None:
+            bad = bad or (arcs, "raises")
+            continue
+        e_, d_ = unsnap(res.ret).args[0]
+        got = R.flat(ex, res, e_)
+        parts = ex.unpack_to(d_, 2, res.state, None)
+        back = cval(parts[0]) if is_const(parts[0]) else (tuple(cval(x) for x in ex.iter_items(parts[0], res.state)) if ex.iter_items(parts[0], res.state) is not None else None)
+        if got is None or bytes(cval(x) for x in got).hex() != hx or tuple(back or ()) != arcs:
+            bad = bad or (arcs, "encoding %s (X.690: %s), decoded %s" % (bytes(cval(x) for x in got).hex() if got else None, hx, back))
+    chk.require(bad is None, P("der-codec-oid"), fo.qualname, "%d object identifiers (the key-format OIDs, a 2.999 arc)" % len(oids), "%s:%d" % (fo.file, fo.lineno),
+                "OBJECT IDENTIFIER is 06 | length | 40*a+b then base-128 arcs; remove_object returns the arcs", "oid %s: %s" % bad if bad else "")
+    chk.info["der_codec_scenarios"] = stk.runs
+
+
 def run(prog, chk, tier):
     chk.explanation = ("The decoders of the vendored ECC library are interpreted with the DER primitives, byte helpers and point decoders inlined; explicit raises, assertions and "
                        "implicit raisers are collected with their handlers; implicit ones and assertions are discharged by Fourier-Motzkin entailment over path facts (length "
@@ -335,3 +460,4 @@ def run(prog, chk, tier):
     trailing_data_rules(prog, chk, "C19")
     const_rules(prog, chk, "C19")
     point_encoding_rules(prog, chk, "C19")
+    stackrt.guarded(chk, "C19.der-codec-scenarios", der_codec_scenarios, prog, chk, "C19", tier)
